@@ -401,3 +401,8 @@ Fixpoint read_track (tfs : list traf_out) (id : N) : option (list fsample) :=
 (* the write-order layout of the truns (for the correspondence): (trackID, writeOrderNr, sample count) *)
 Definition trun_layout (fo : frag_out) : list (N * N * N) :=
   concat (map (fun tf => map (fun tr => (tf_id tf, fst tr, lenN (snd tr))) (tf_truns tf)) (fo_trafs fo)).
+
+(* what a reader of one written fragment / single-fragment segment sees: tfdt is the first sample's
+   decode time, every later decode time is accumulated from the durations *)
+Definition retime_seg (seg : list fsample) : list fsample :=
+  match seg with [] => [] | s :: _ => retime (fs_dts s) seg end.
